@@ -223,6 +223,42 @@ Alt-Svc entry for the authority? -/
 def learnsAlt (cfg : Cfg) (req : Req) (carriedBy : Ver) (advertised : Bool) : Bool :=
   carriedBy ≠ .h3 && cfg.h3 && cfg.force = none && req.scheme = .https && advertised
 
+/-! ## the protocol setters of transport.go (l.514-606) -/
+
+inductive Setting
+  | forceH1 | forceH2 | forceH3 | unforce     -- EnableForceHTTP1/2/3, DisableForceHttpVersion
+  | enableH3 | disableH3                      -- EnableHTTP3, DisableHTTP3
+  | enableH2C | disableH2C                    -- EnableH2C, DisableH2C
+  | clone                                     -- Transport.Clone (t3 rebuilt by EnableHTTP3 on the clone)
+  deriving DecidableEq, Repr
+
+/-- `EnableHTTP3`: a no-op when the Go version is outside 1.22–1.23 (`supported = false`). -/
+def enableH3 (supported : Bool) (c : Cfg) : Cfg := if supported then { c with h3 := true } else c
+
+/-- One setter (patched `DisableHTTP3`: a forced HTTP/3 is dropped with the round tripper,
+fixes/C12-4). `Clone` keeps force and HTTP/3; `t2.AllowHTTP` is not carried over. -/
+def applySetting (supported : Bool) (c : Cfg) : Setting → Cfg
+  | .forceH1 => { c with force := some .h1 }
+  | .forceH2 => { c with force := some .h2 }
+  | .forceH3 => let c' := enableH3 supported c; if c'.h3 then { c' with force := some .h3 } else c'
+  | .unforce => { c with force := none }
+  | .enableH3 => enableH3 supported c
+  | .disableH3 => { c with h3 := false, force := if c.force = some .h3 then none else c.force }
+  | .enableH2C => { c with allowHTTP := true, dialTLS := true }
+  | .disableH2C => { c with allowHTTP := false, dialTLS := false }
+  | .clone => { c with allowHTTP := false }
+
+/-- `DisableHTTP3` as it is in the un-patched tree. -/
+def applySettingUnpatched (supported : Bool) (c : Cfg) : Setting → Cfg
+  | .disableH3 => { c with h3 := false }
+  | s => applySetting supported c s
+
+/-- `T()`. -/
+def initialProto : Cfg := ⟨none, false, false, false, false, [.http11, .h2]⟩
+
+/-- A forced HTTP/3 has its round tripper. -/
+def Cfg.WF (c : Cfg) : Prop := c.force = some .h3 → c.h3 = true
+
 /-- What "the server negotiated `v`" means for an https request: a cached connection of that
 version exists (negotiated earlier), or the handshake that is made now yields it. For a
 user-supplied dial/handshake function the state it reports is taken at its word. -/
